@@ -30,6 +30,18 @@ CLAIMS = {
     "module set_const (writes derived Model fields) is not part of the claim.",
     "design_ref": "DESIGN.md 3 (C10)",
   },
+  "C25": {
+    "text": "Transition contracts on the real termination kernels (_solve_done, _solve_cg_finalize; ctx.done aliased for in/out as at "
+    "the launch site): per world niter increments by one and never exceeds the limit, the invariant 'not done => niter < iterations' is "
+    "preserved, done worlds are untouched, nsolving is decremented exactly when a world becomes done, and -- stated relationally, without "
+    "naming the tolerance test -- the ITERATIONS bit is newly set iff the world stops in this transition but would not have stopped with "
+    "a larger limit on the same inputs. Initialisation and both host loop forms are checked against the invariant; transparency is the "
+    "DONE_GUARD obligation for every kernel launched (transitively, through the real launch-site bindings) from _solver_iteration: with "
+    "its world done, no write to any Data field, ctx.grad, ctx.grad_scale, ctx.done or nsolving can execute.",
+    "note": _BASE + "T4 for the nsolving counter; wp.capture_while semantics external. iterations < 0 outside the precondition; "
+    "iterations == 0 read as 'no transition'. Tile intrinsics abstracted to row writes (enough for guards).",
+    "design_ref": "DESIGN.md 3 (C25), 9.2",
+  },
   "C13": {
     "text": "io.reset_data is executed symbolically as a whole (host code + its five nested kernels bound through the real launch sites, "
     "for reset=None, a bool mask and an integer mask). For a symbolic selected world every field of the integration state and every "
